@@ -14,7 +14,8 @@ package main
 //	           below, emitted as `helpers` and pinned by a Lean theorem).  Constructors (object not yet
 //	           shared) are emitted with ctx = ctor.
 //	closes     every `close(ch)` with a syntactic guard class (once / flag / selectDefault / localChan / none)
-//	sends      every send statement on a channel field that has a close site in the same package, with its
+//	sends      every send statement on a channel that has a close site in the same file — or on a channel PARAMETER of a
+//	           top-level function that some caller binds to a channel its own file closes —, with its
 //	           guard class (panicToError / deferRecover / none)
 //
 // The judgement (which lock mode an access kind needs, whether `held` covers it) is made in Lean
@@ -90,6 +91,16 @@ type lfSend struct {
 	line     int
 	ch       string
 	guard    string
+}
+
+type lfChanParam struct {
+	file, fn, param string
+	idx             int
+}
+
+type lfChanCall struct {
+	file, callee string
+	args         []string
 }
 
 type lfHeld map[string]string // lock expression text -> "R" | "W"
@@ -749,6 +760,8 @@ func genLockFacts(repo, out string) error {
 	var accesses []lfAccess
 	var closes []lfClose
 	var sends []lfSend
+	var chanParams []lfChanParam
+	var chanCalls []lfChanCall
 	foundStruct := map[string]bool{}
 	foundHelper := map[string]bool{}
 	ctorFns := map[string]bool{}
@@ -918,6 +931,41 @@ func genLockFacts(repo, out string) error {
 					name = rt + "." + name
 				}
 				cw.fn(name, fd.Body)
+				// channel-typed parameters of top-level functions, and every call with its argument texts (below: a
+				// parameter that some caller binds to a channel which the caller's file closes is closable as well)
+				if fd.Recv == nil && fd.Type.Params != nil {
+					i := 0
+					for _, fl := range fd.Type.Params.List {
+						_, isChan := fl.Type.(*ast.ChanType)
+						for _, nm := range fl.Names {
+							if isChan {
+								chanParams = append(chanParams, lfChanParam{rel, fd.Name.Name, nm.Name, i})
+							}
+							i++
+						}
+					}
+				}
+				ast.Inspect(fd.Body, func(n ast.Node) bool {
+					c, ok := n.(*ast.CallExpr)
+					if !ok {
+						return true
+					}
+					callee := ""
+					switch fn := c.Fun.(type) {
+					case *ast.Ident:
+						callee = fn.Name
+					case *ast.SelectorExpr:
+						callee = fn.Sel.Name
+					}
+					if callee != "" {
+						var args []string
+						for _, a := range c.Args {
+							args = append(args, agSrc(fset, a))
+						}
+						chanCalls = append(chanCalls, lfChanCall{rel, callee, args})
+					}
+					return true
+				})
 			}
 			return nil
 		})
@@ -928,10 +976,19 @@ func genLockFacts(repo, out string) error {
 	if len(closes) == 0 {
 		return fail("no close( site found at all")
 	}
-	// keep only sends on channels that some close site in the same file closes (by last name)
+	// keep only sends on channels that some close site in the same file closes (by last name) …
 	closedNames := map[string]bool{}
 	for _, c := range closes {
 		closedNames[c.file+":"+lfLastName(c.ch)] = true
+	}
+	// … or on a channel PARAMETER that some caller binds to such a channel (pkg/proto/udp ForwardUserConn(…, sendCh, …)
+	// is handed pxy.sendCh by server/proxy/udp.go, which closes it)
+	for _, cp := range chanParams {
+		for _, call := range chanCalls {
+			if call.callee == cp.fn && cp.idx < len(call.args) && closedNames[call.file+":"+lfLastName(call.args[cp.idx])] {
+				closedNames[cp.file+":"+cp.param] = true
+			}
+		}
 	}
 	var ksends []lfSend
 	for _, s := range sends {
